@@ -84,6 +84,48 @@ Theorem worker_seed_owned_by_one_unit_any_start : forall tbl ctbl wt ds,
 Proof. exact worker_seed_owned_by_one_unit_any_start_proof. Qed.
 Print Assumptions worker_seed_owned_by_one_unit_any_start.
 
+(* the hook writes generator slots and nothing else: the shape of the stack (and with it being an instance of the
+   tables) is unchanged - there is no state a later run of the hook, or a copy of the object, could see *)
+Theorem worker_init_preserves_shape : forall tbl ctbl wt ds s k,
+    serase (snd (worker_init tbl ctbl wt ds k s)) = serase s
+    /\ swf tbl ctbl wt (snd (worker_init tbl ctbl wt ds k s)) = swf tbl ctbl wt s.
+Proof. exact worker_init_preserves_shape_proof. Qed.
+Print Assumptions worker_init_preserves_shape.
+
+(* worker_init is a function of (stack shape, worker seed) only, independent of earlier worker_init calls: after ANY
+   history ks of earlier runs of the hook on the object (in the parent before the copies were made - a manual call for
+   num_workers = 0, an earlier launch on the same dataset - or earlier in this worker, each with whatever seeds), the
+   run that starts at k consumes the same number of global draws and leaves the same provenance in every unit as the
+   run on the pristine object would have; the numbering k' of the earlier runs is irrelevant *)
+Theorem worker_init_idempotent_in_history : forall tbl ctbl wt ds,
+    forallb (closed tbl) tbl = true ->
+    forallb (closed ctbl) ctbl = true ->
+    forallb (wiclosed tbl) wt = true ->
+    dsclosed ds = true ->
+    forall s, swf tbl ctbl wt s = true -> fwd_known ds s = true ->
+    forall ks k,
+      let h := wi_history tbl ctbl wt ds ks s in
+      fst (worker_init tbl ctbl wt ds k h) = fst (worker_init tbl ctbl wt ds k s)
+      /\ stack_units tbl ctbl wt (snd (worker_init tbl ctbl wt ds k h)) = stack_units tbl ctbl wt (snd (worker_init tbl ctbl wt ds k s))
+      /\ stack_draws tbl ctbl wt (snd (worker_init tbl ctbl wt ds k h)) = stack_draws tbl ctbl wt (snd (worker_init tbl ctbl wt ds k s)).
+Proof. exact worker_init_idempotent_in_history_proof. Qed.
+Print Assumptions worker_init_idempotent_in_history.
+
+(* the LAST seed wins: after any history, every generator samples / batches can draw from is derived from the draws
+   k .. of the run that came last (none is left over from an earlier run, none is an inherited copy) *)
+Theorem worker_init_last_seed_wins : forall tbl ctbl wt ds,
+    forallb (closed tbl) tbl = true ->
+    forallb (closed ctbl) ctbl = true ->
+    forallb (wiclosed tbl) wt = true ->
+    dsclosed ds = true ->
+    forall s, swf tbl ctbl wt s = true -> fwd_known ds s = true ->
+    forall ks k q,
+      let h := wi_history tbl ctbl wt ds ks s in
+      In q (stack_draws tbl ctbl wt (snd (worker_init tbl ctbl wt ds k h))) ->
+      worker_derived k (fst (worker_init tbl ctbl wt ds k h)) q = true.
+Proof. exact worker_init_last_seed_wins_proof. Qed.
+Print Assumptions worker_init_last_seed_wins.
+
 (* the tables generated from today's sources are closed *)
 Theorem wrapper_table_wi_closed : forallb (wiclosed rng_table) wrp_table = true.
 Proof. exact wrapper_table_wi_closed_proof. Qed.
@@ -147,6 +189,33 @@ Proof.
 Qed.
 Print Assumptions shipped_worker_seed_owned_by_one_unit_any_start.
 
+Theorem shipped_worker_init_idempotent_in_history : forall s,
+    swf rng_table col_table wrp_table s = true -> fwd_known ds_table s = true ->
+    forall ks k,
+      let h := wi_history rng_table col_table wrp_table ds_table ks s in
+      fst (worker_init rng_table col_table wrp_table ds_table k h) = fst (worker_init rng_table col_table wrp_table ds_table k s)
+      /\ stack_units rng_table col_table wrp_table (snd (worker_init rng_table col_table wrp_table ds_table k h))
+         = stack_units rng_table col_table wrp_table (snd (worker_init rng_table col_table wrp_table ds_table k s))
+      /\ stack_draws rng_table col_table wrp_table (snd (worker_init rng_table col_table wrp_table ds_table k h))
+         = stack_draws rng_table col_table wrp_table (snd (worker_init rng_table col_table wrp_table ds_table k s)).
+Proof.
+  exact (worker_init_idempotent_in_history_proof rng_table col_table wrp_table ds_table
+           table_closed_proof collator_table_closed_proof wrapper_table_wi_closed_proof dataset_table_closed_proof).
+Qed.
+Print Assumptions shipped_worker_init_idempotent_in_history.
+
+Theorem shipped_worker_init_last_seed_wins : forall s,
+    swf rng_table col_table wrp_table s = true -> fwd_known ds_table s = true ->
+    forall ks k q,
+      let h := wi_history rng_table col_table wrp_table ds_table ks s in
+      In q (stack_draws rng_table col_table wrp_table (snd (worker_init rng_table col_table wrp_table ds_table k h))) ->
+      worker_derived k (fst (worker_init rng_table col_table wrp_table ds_table k h)) q = true.
+Proof.
+  exact (worker_init_last_seed_wins_proof rng_table col_table wrp_table ds_table
+           table_closed_proof collator_table_closed_proof wrapper_table_wi_closed_proof dataset_table_closed_proof).
+Qed.
+Print Assumptions shipped_worker_init_last_seed_wins.
+
 (* non-vacuity: ModeWrapper over a multi-view wrapper (two per-view transforms, one nested) over a subset over a semseg
    wrapper over a root with a mix collator is an instance of the generated tables, inherited, and its four units get the
    four worker seeds 0..3 *)
@@ -190,4 +259,24 @@ Example nonvacuous_any_start :
   /\ stack_units rng_table col_table wrp_table (snd (worker_init rng_table col_table wrp_table ds_table 0 s))
      = [[Glob GNumpy]; []; [Wrk 0; Wrk 0]; [Wrk 1]]
   /\ forallb (worker_derived 0 2) (stack_draws rng_table col_table wrp_table (snd (worker_init rng_table col_table wrp_table ds_table 0 s))) = true.
+Proof. vm_compute. repeat split. Qed.
+
+(* non-vacuity of the history theorems: the hook run twice before (once starting at 5, once at 11 - e.g. in the parent
+   and in an earlier launch), then the run at 0: the units are those of the run at 0 on the pristine stack, the
+   intermediate state held the generators of the earlier runs *)
+Example nonvacuous_history :
+  let s := DFwd "ModeWrapper"
+             [DWrap (WObj "XTransformWrapper"
+                       [("transform"%string, [Node "KDComposeTransform" None
+                                                [("transforms"%string, [Node "KDRandomCrop" (Some (Ctor 0)) [];
+                                                                         Node "KDRandomHorizontalFlip" (Some (Ctor 1)) []])]])])
+                (DRoot [Node "KDMixCollator" (Some (Ctor 2)) []])] in
+  let h := wi_history rng_table col_table wrp_table ds_table [5; 11] s in
+  swf rng_table col_table wrp_table s = true
+  /\ fwd_known ds_table s = true
+  /\ stack_units rng_table col_table wrp_table h = [[]; [Wrk 11; Wrk 11]; [Wrk 12]]
+  /\ stack_units rng_table col_table wrp_table (snd (worker_init rng_table col_table wrp_table ds_table 0 h))
+     = [[]; [Wrk 0; Wrk 0]; [Wrk 1]]
+  /\ stack_units rng_table col_table wrp_table (snd (worker_init rng_table col_table wrp_table ds_table 0 s))
+     = [[]; [Wrk 0; Wrk 0]; [Wrk 1]].
 Proof. vm_compute. repeat split. Qed.
